@@ -211,8 +211,15 @@ def spawn_module(with_export=True, imported=False):
     # slot = atomic add(@0, 1); record (tid, arg) at 16 + slot*8; then publish with atomic add(@4, 1) ("done" counter)
     body = [('i32.const', 0), ('i32.const', 1), ('i32.atomic.rmw.add', 2, 0), ('i32.const', 8), ('i32.mul',), ('local.tee', 2),
             ('local.get', 0), ('i32.store', 2, 16), ('local.get', 2), ('local.get', 1), ('i32.store', 2, 20),
+            # nested spawn: while the top byte of the argument is non-zero, spawn once more with it decremented and log
+            # (argument, returned id) at 32768 + 8 * atomic add(@8, 1)
+            ('local.get', 1), ('i32.const', 24), ('i32.shr_u',),
+            ('if', None, [
+                ('local.get', 1), ('i32.const', 1 << 24), ('i32.sub',), ('local.tee', 3), ('call', 0), ('local.set', 4),
+                ('i32.const', 0), ('i32.const', 1), ('i32.atomic.rmw.add', 2, 8), ('i32.const', 8), ('i32.mul',), ('local.tee', 2),
+                ('local.get', 3), ('i32.store', 2, 32768), ('local.get', 2), ('local.get', 4), ('i32.store', 2, 32772)], []),
             ('i32.const', 0), ('i32.const', 1), ('i32.atomic.rmw.add', 2, 4), ('drop',)]
-    m.funcs.append(Func(T((I32, I32), ()), [I32], body))
+    m.funcs.append(Func(T((I32, I32), ()), [I32, I32, I32], body))
     if with_export:
         m.exports.append((b'wasi_thread_start', 'func', 1))
     else:
@@ -250,7 +257,7 @@ def spawn_binary(with_export, tsan=False, imported=False):
 
 def case_spawn(ch):
     return {'kind': 'spawn', 'T': ch.pick((1, 2, 3, 4, 8)), 'K': ch.pick((1, 2, 4, 8, 16)), 'export': ch.below(5) != 0,
-            'tsan': False, 'imported': ch.below(3) == 0}
+            'tsan': False, 'imported': ch.below(3) == 0, 'depth': ch.pick((0, 0, 1, 2))}
 
 
 def run_spawn(case):
@@ -259,7 +266,7 @@ def run_spawn(case):
     env.update(cexec.ASAN_ENV)
     env['TSAN_OPTIONS'] = 'exitcode=96:halt_on_error=0:report_thread_leaks=0'
     try:
-        r = subprocess.run([exe, str(case['T']), str(case['K'])], stdout=subprocess.PIPE, stderr=subprocess.PIPE, env=env, timeout=120)
+        r = subprocess.run([exe, str(case['T']), str(case['K']), str(case.get('depth', 0))], stdout=subprocess.PIPE, stderr=subprocess.PIPE, env=env, timeout=120)
     except subprocess.TimeoutExpired:
         return 'timeout', 'thread-spawn harness did not finish within 120 s'
     err = r.stderr.decode(errors='replace')
@@ -325,6 +332,8 @@ def classify(case):
             out.append('spawn_missing_export')
         if case.get('imported'):
             out.append('spawn_imported_shared_memory')
+        if case.get('depth'):
+            out.append('spawn_from_a_spawned_thread')
     return out
 
 
